@@ -104,8 +104,14 @@ def run(ctx):
     for rep in range(reps):
       for layout in layouts:
         ncls = int(rng.integers(2, 4))
-        data = fits.make_data(rng, n_classes=ncls, n_per_class=[int(rng.integers(7, 12)) for _ in range(ncls)])
+        sizes = [int(rng.integers(7, 12)) for _ in range(ncls)]
+        if name == 'SCML_Supervised' and rep % 2 == 1:
+          sizes = [5] + [int(rng.integers(14, 20)) for _ in range(ncls - 1)]     # one small class, the others large
+        data = fits.make_data(rng, n_classes=ncls, n_per_class=sizes)
         X, y = data['X'], data['y'].copy()
+        if rng.random() < 0.5:
+          y = fits.encode_labels(rng, data)['y'].copy()     # class labels are names: 1-based, tens, gapped
+          ctx.hist('label_names', 'renamed')
         n = len(y)
         # repeated samples (the same row more than once within a class), as in iris
         dup = bool(rng.random() < 0.5)
@@ -139,6 +145,9 @@ def run(ctx):
         elif name == 'SCML_Supervised':
           kw.update(k_genuine=int(rng.integers(1, 4)), k_impostor=int(rng.integers(1, 5)),
                     basis=['lda', 'triplet_diffs'][variant])
+          if rep % 2 == 1:
+            # more neighbours than the small class can supply (clipped for that class only, with a warning)
+            kw.update(k_genuine=int(rng.integers(5, 8)), k_impostor=int(rng.integers(8, 13)))
           if variant == 0:
             # more LDA bases than 2 * (labelled samples) * min(n_classes - 1, d) - 1 is a documented ValueError
             nk = int(np.sum(y >= 0))
@@ -206,8 +215,8 @@ def run(ctx):
             ctx.fail_input('unlabelled_irrelevant', '%s: fit with other unlabelled rows raises %s' % (name, type(ex).__name__),
                            inp, observed=str(ex)[:200])
           else:
-            tolc = 1e-9 * (1 + np.abs(sup.components_).max())
-            if moved.components_.shape != sup.components_.shape or np.abs(moved.components_ - sup.components_).max() > tolc:
+            tolc = 1e-9 * (1 + (np.abs(sup.components_).max() if np.size(sup.components_) else 0.0))     # SCML may keep no basis: shape (0, d)
+            if moved.components_.shape != sup.components_.shape or (np.size(sup.components_) and np.abs(moved.components_ - sup.components_).max() > tolc):
               ctx.fail_input('unlabelled_irrelevant', name + ': changing the coordinates of the unlabelled points changes the learned metric', inp,
                              observed=np.asarray(moved.components_).tolist(), expected=np.asarray(sup.components_).tolist())
         # metric obtained from the labelled points alone: drop the unknown rows, replay the same constraints as coordinates
